@@ -88,6 +88,7 @@ type instance struct {
 	tmpl    *cache.Cache
 	invoked map[string]map[string]bool // id -> contents for which a Put was invoked
 	putOK   map[string]bool            // id -> some Put returned nil
+	dynMust map[int]bool               // thread -> its lookup in progress must hit (see checkLookupR)
 	viol    string
 	hits    int
 	misses  int
@@ -179,6 +180,9 @@ func (in *instance) checkLookupR(th int, o op, data []byte, file string, ent cac
 			return
 		}
 		in.misses++
+		if in.dynMust[th] && len(in.invoked[o.ID]) == 1 {
+			in.fail("T%d %s missed (%v) although a Put of the only content ever stored for this id had returned before the lookup began (identical re-stores in flight must not make it miss)", th, o, err)
+		}
 		for _, m := range in.sc.MustHit {
 			if m == o.ID {
 				in.fail("T%d %s missed (%v) although the id was stored before and is only re-stored with identical content", th, o, err)
@@ -260,6 +264,7 @@ func (in *instance) body() {
 	in.dir = nd
 	in.invoked = map[string]map[string]bool{"A": {}, "B": {}, "C": {}}
 	in.putOK = map[string]bool{}
+	in.dynMust = map[int]bool{}
 	in.viol = ""
 	in.hits, in.misses, in.done = 0, 0, 0
 	// pre-stored entries (not under the scheduler's eyes: main thread, before the users start)
@@ -326,9 +331,11 @@ func (in *instance) body() {
 						in.putOK[o.ID] = true
 					}
 				case "getbytes":
+					in.dynMust[ti+1] = in.putOK[o.ID] && len(in.invoked[o.ID]) == 1
 					data, ent, err := c.GetBytes(ids[o.ID])
 					in.checkLookup(ti+1, o, data, "", ent, err)
 				case "getfile":
+					in.dynMust[ti+1] = in.putOK[o.ID] && len(in.invoked[o.ID]) == 1
 					file, ent, err := c.GetFile(ids[o.ID])
 					in.checkLookup(ti+1, o, nil, file, ent, err)
 				}
@@ -491,6 +498,8 @@ func scenarios(th bool) []scenario {
 		{Name: "5 overwrite same length" + pmodeTag, Pre: [][2]string{{"A", "X"}}, Threads: [][]op{{put("A", "Z")}, {gb("A"), gf("A")}}, Bound: 2},
 		{Name: "1 same id same content" + pmodeTag, Threads: [][]op{{put("A", "X")}, {put("A", "X")}, {gb("A"), gf("A")}}, Bound: 1},
 		{Name: "8 re-store while another id shares the output", Pre: [][2]string{{"A", "X"}, {"B", "X"}}, Threads: [][]op{{put("A", "X")}, {gb("B"), gf("B")}}, MustHit: []string{"A", "B"}, Bound: b2},
+		{Name: "13 re-store by a second writer while the first writer looks its entry up", Threads: [][]op{{put("A", "X"), gb("A"), gf("A")}, {put("A", "X")}}, Bound: b2},
+		{Name: "14 three writers of identical content, each looks up afterwards", Threads: [][]op{{put("A", "X"), gf("A")}, {put("A", "X"), gb("A")}, {put("A", "X")}}, Bound: b3},
 		{Name: "11 overwrite while another id shares the superseded output", Pre: [][2]string{{"A", "X"}, {"B", "X"}}, Threads: [][]op{{put("A", "Y")}, {gb("B"), gf("B")}}, MustHit: []string{"B"}, Bound: b2},
 		{Name: "12 two ids swap away from a shared output", Pre: [][2]string{{"A", "X"}, {"B", "X"}, {"C", "X"}}, Threads: [][]op{{put("A", "Z")}, {put("B", "Y")}, {gf("C"), gb("C")}}, MustHit: []string{"C"}, Bound: b3},
 	}
